@@ -15,6 +15,8 @@ func init() {
 	// reading a line from a closed stream never returns
 	isolateRules["common-lisp:read-line"] = anyOf("scl")
 	isolateRules["net:wait-for-input"] = anyOf("el")
+	// (unexport '(lambda (x) x)) takes `lambda` away from cl-user: no fault, but it must not happen inside a worker
+	isolateRules["common-lisp:unexport"] = anyOf("lamx")
 }
 
 // isolateDirective: format directives known to run without bound with a huge
